@@ -66,6 +66,34 @@ int main (int argc, char** argv)
     expect ("circular mean of the single angle pi points in direction pi", std::fabs (e.val), M_PI, 1e-6); }, 1);
 #endif
 
+#ifndef SYMX_SYMBOLIC
+  // long sequences (the ties use sequences of up to three entries): insertion order and grouping change the result
+  // only by rounding, and the result is the weighted mean with variance 1 / sum of weights; zero-valued, cancelling
+  // and zero-variance entries included
+  fn ("long_sequence_plain", [] {
+    uint64_t st = 31; auto rnd = [&st] () { st = st * 6364136223846793005ULL + 1442695040888963407ULL; return double ((st >> 33) % 2000001) / 1e6 - 1.0; };
+    for (unsigned n : { 10u, 257u, 5000u }) { std::vector< Estimate<double> > xs;
+      for (unsigned k=0; k<n; k++) { double v = (k % 7 == 3) ? 0.0 : 10 * rnd (); double var = (k % 11 == 5) ? 0.0 : 0.01 + std::fabs (rnd ()); xs.push_back (Estimate<double> (v, var)); }
+      xs.push_back (Estimate<double> (2.0, 1.0)); xs.push_back (Estimate<double> (-2.0, 1.0));           // a cancelling pair
+      double sw = 0, swx = 0; for (auto& e : xs) if (e.var != 0) { sw += 1 / e.var; swx += e.val / e.var; }
+      MeanEstimate<double> fwd, rev, tree; for (auto& e : xs) fwd += e; for (unsigned k=xs.size (); k>0; k--) rev += xs[k-1];
+      { std::vector< MeanEstimate<double> > parts; for (unsigned k=0; k<xs.size (); k+=2) { MeanEstimate<double> p; p += xs[k]; if (k+1 < xs.size ()) p += xs[k+1]; parts.push_back (p); }
+        while (parts.size () > 1) { std::vector< MeanEstimate<double> > nx; for (unsigned k=0; k<parts.size (); k+=2) { MeanEstimate<double> p = parts[k]; if (k+1 < parts.size ()) p += parts[k+1]; nx.push_back (p); } parts = nx; }
+        tree = parts[0]; }
+      char what[160]; Estimate<double> f = fwd.get_Estimate (), r = rev.get_Estimate (), t = tree.get_Estimate ();
+      snprintf (what, 160, "%u estimates: forward insertion gives the weighted mean", n); expect (what, f.val, swx / sw, 1e-10); expect (std::string (what) + " (variance)", f.var, 1 / sw, 1e-10);
+      snprintf (what, 160, "%u estimates: reverse insertion agrees with forward insertion", n); expect (what, r.val, f.val, 1e-10); expect (std::string (what) + " (variance)", r.var, f.var, 1e-10);
+      snprintf (what, 160, "%u estimates: a binary merge tree agrees with one-at-a-time insertion", n); expect (what, t.val, f.val, 1e-10); expect (std::string (what) + " (variance)", t.var, f.var, 1e-10);
+      // circular mean of angles clustered around a direction away from the multiples of pi/2 (those are the known finding)
+      std::vector< Estimate<double> > as; for (unsigned k=0; k<n; k++) as.push_back (Estimate<double> (0.7 + 0.3 * rnd () + 2 * M_PI * int (3 * rnd ()), 0.01 + std::fabs (rnd ())));
+      as.push_back (Estimate<double> (0.7 + 0.3, 0.5)); as.push_back (Estimate<double> (0.7 - 0.3, 0.5));
+      MeanRadian<double,double> cf, cr, ct1, ct2; for (auto& e : as) cf += e; for (unsigned k=as.size (); k>0; k--) cr += as[k-1];
+      for (unsigned k=0; k<as.size (); k++) { if (k % 2) ct1 += as[k]; else ct2 += as[k]; } ct1 += ct2;
+      Estimate<double> a1 = cf.get_Estimate (), a2 = cr.get_Estimate (), a3 = ct1.get_Estimate ();
+      snprintf (what, 160, "%u angles: reverse insertion agrees with forward insertion", n); expect (what, a2.val, a1.val, 1e-10); expect (std::string (what) + " (variance)", a2.var, a1.var, 1e-10);
+      snprintf (what, 160, "%u angles: merging two halves agrees with one-at-a-time insertion", n); expect (what, a3.val, a1.val, 1e-10); expect (std::string (what) + " (variance)", a3.var, a1.var, 1e-10);
+    } }, 1);
+#endif
   symx::finish ();
   return 0;
 }
